@@ -143,6 +143,9 @@ func buildTarGz(ents []tarEnt) []byte {
 		case 'h':
 			h.Typeflag = tar.TypeLink
 			h.Linkname = e.target
+			if archivePreserve {
+				h.Mode = 0o755
+			}
 		}
 		if err := tw.WriteHeader(h); err != nil {
 			panic(err)
@@ -198,6 +201,10 @@ func classify(parent string, ents []tarEnt, named string) string {
 // archiveTitle is the title (directory name) the archive blob is pushed under.
 var archiveTitle = "d"
 
+// archivePreserve: the store unpacks with PreservePermissions, and link entries carry a mode
+// of their own (0755).
+var archivePreserve bool
+
 func runArchive(sb *sandbox, ents []tarEnt, named string) string {
 	ctx := context.Background()
 	oldwd, _ := os.Getwd()
@@ -209,6 +216,7 @@ func runArchive(sb *sandbox, ents []tarEnt, named string) string {
 	if err != nil {
 		panic(err)
 	}
+	st.PreservePermissions = archivePreserve
 	res := "ok"
 	if len(ents) > 0 {
 		gz := buildTarGz(ents)
@@ -385,6 +393,14 @@ func runC11(seed int64, tier string, sc *Script) map[string]any {
 	runOne("hard-abs", []tarEnt{{'h', "d/a", "ABS-OUTSIDE"}, {'r', "d/a", ""}}, "")
 	runOne("hard-abs", []tarEnt{{'d', "d/s", ""}, {'h', "d/s/l1", "ABS-OUTSIDE"}, {'r', "d/s/l1", ""}}, "")
 	runOne("hard-dotdot", []tarEnt{{'h', "d/a", "../outside/victim"}, {'r', "d/a", ""}}, "")
+	// PreservePermissions: the modes an archive carries are applied inside the working
+	// directory only - a hard link to a file of the process directory shares that file's
+	// inode, and must not have the entry's mode applied to it
+	archivePreserve = true
+	runOne("hard-preserve-mode", []tarEnt{{'h', "d/a", "cfile"}}, "")
+	runOne("hard-preserve-mode", []tarEnt{{'d', "d/s", ""}, {'h', "d/s/l1", "cfile"}, {'d', "d/t", ""}}, "")
+	runOne("sym-preserve-mode", []tarEnt{{'s', "d/a", "../../cfile"}}, "")
+	archivePreserve = false
 	// symbolic links whose absolute target starts with the working directory's path but leaves
 	// it through "..", and (archive pushed under the title ".") a relative target into the
 	// sibling directory whose name extends the working directory's
